@@ -1596,7 +1596,12 @@ fn evaluate_cases(
                         let first = err.lines().next().unwrap_or("");
                         let msg = first.splitn(2, ": ").nth(1).unwrap_or(first);
                         fails[ga].push(Fail {
-                            sig: format!("C25/compile-result-changes-with-renaming/{}", crate::run::normalise_msg(msg)),
+                            // a duplicate binding keeps its name in the signature: which identifier
+                            // collides is the root cause (`v`/`e` of the synthesised `X+` bindings are listed)
+                            sig: format!(
+                                "C25/compile-result-changes-with-renaming/{}",
+                                if msg.contains("is bound more than once in this parameter list") { msg.to_string() } else { crate::run::normalise_msg(msg) }
+                            ),
                             what: format!("only one of the grammar and its renaming ({}) compiles: {}", cb.pair_note, err.lines().take(3).collect::<Vec<_>>().join(" | ")),
                             replay: base_replay(json!({"rustc": err})),
                         });
